@@ -161,7 +161,8 @@ MC_THOROUGH = {
                 Ops=fs("create", "update", "delete", "createTeam", "deleteTeam", "addLinks", "rcInc"), MaxRc=1),
     "C06_cascade": dict(MaxOps=2, Teams=fs("t1"), TeamPool=fs(NIL, "t1"), NickPool=fs(NIL), RolePool=fs(fs(), fs("r1")), BossPool=fs(NIL, "p1"), GradePool=fs("g1"), FieldSets=FS_ALL,
                         Ops=fs("create", "update", "delete", "createTeam", "deleteTeam", "addLinks", "rcInc"), MaxRc=1),
-    "C07": dict(MaxOps=2, TxKinds=fs("update"), BossPool=fs(NIL, "p1")),
+    # (measured: 1.0 M distinct states / 148 M transitions, 6 min at 16 workers; the unrestricted table does not finish in 20 min)
+    "C07": dict(MaxOps=2, RolePool=fs(fs(), fs("")), SysCtxs=fs(False, True), SysPool=fs(False, True), TxKinds=fs("update"), FieldSets=FS_ALL, BossPool=fs(NIL, "p1")),
     "C08": dict(MaxOps=2),
     "C15": dict(MaxOps=2),
     "C15_ext": dict(MaxOps=2),
